@@ -5,6 +5,197 @@ From DB Require Import Base.Bytes Gen.GenC05 Gen.GenC08 Model.RsmApply Proofs.Rs
 From DB Require Model.Session Model.Membership.
 Open Scope N_scope.
 
+(* ---- the apply path (internal/rsm/statemachine.go, raftpb/entry.go) ----------
+   Everything is quantified over the user state machine (S, result, sm_update,
+   sm_save, sm_recover with sm_recover (sm_save s) = Some s), the address
+   normalisation, the configuration, the session capacity, ALL logs [es] (indexes
+   1, 2, 3, ..., positive terms) and ALL delivery schedules: [delivery es pos ts
+   final] says that the task list [ts] hands the log to a replica that has applied
+   [pos] entries in segments that each start at or below the first unapplied entry
+   (any overlap, any batch size) and reaches [final].                              *)
+
+(* BATCHING / RE-DELIVERY IS INVISIBLE: a task list does exactly what applying the
+   not yet applied entries one by one does — same state, same reports, same panic *)
+Theorem tasks_equal_entries :
+  forall (S result : Type) (sm_update : S -> bytes -> S * result) norm cfg es,
+  contiguous 0 es -> Forall (fun e => 0 < en_term e) es ->
+  forall pos ts final, delivery es pos ts final ->
+  forall st : @state S result, synced st -> r_index st = N.of_nat pos -> (pos <= length es)%nat ->
+  run_tasks sm_update norm cfg st ts =
+  run_sync sm_update norm cfg st (firstn (final - pos) (skipn pos es)).
+Proof. exact @run_tasks_delivery. Qed.
+Print Assumptions tasks_equal_entries.
+
+(* two replicas handed the same log — cut into tasks and re-delivered in any two
+   ways — end in identical states and report identical results *)
+Theorem apply_is_function_of_log :
+  forall (S result : Type) (sm_update : S -> bytes -> S * result) norm cfg es cap (s0 : S) ts1 ts2,
+  contiguous 0 es -> Forall (fun e => 0 < en_term e) es ->
+  delivery es 0 ts1 (length es) -> delivery es 0 ts2 (length es) ->
+  run_tasks sm_update norm cfg (init_state cap s0) ts1 = run_tasks sm_update norm cfg (init_state cap s0) ts2 /\
+  run_tasks sm_update norm cfg (init_state cap s0) ts1 = run_sync sm_update norm cfg (init_state cap s0) es.
+Proof. exact @apply_is_function_of_log_proved. Qed.
+Print Assumptions apply_is_function_of_log.
+
+(* GAP FREEDOM: the hole panic of EntriesToApply and the index / term / batch
+   assertions of setApplied / setLastApplied are unreachable from a gap-free log
+   under every delivery schedule; the applied index advances by exactly one per
+   entry and every entry is reported once *)
+Theorem apply_gap_free :
+  forall (S result : Type) (sm_update : S -> bytes -> S * result) norm cfg es cap (s0 : S) ts final,
+  contiguous 0 es -> terms_ok 0 es -> delivery es 0 ts final ->
+  match run_tasks sm_update norm cfg (init_state cap s0) ts with
+  | Err x => x = ENotManaged \/ x = ECC \/ x = ESession \/ (x = EOnDisk /\ c_ondisk cfg = true)
+  | Ok (st, evs) => r_index st = N.of_nat final /\ r_last_index st = N.of_nat final /\ length evs = final
+  end.
+Proof. exact @apply_gap_free_proved. Qed.
+Print Assumptions apply_gap_free.
+
+(* SNAPSHOT + LOG SUFFIX = FULL LOG (regular and concurrent state machines; file
+   snapshots: the replica's own on restart, the leader's when it lags, an exported
+   one). For every log, every cut [k] with a non-empty membership, every earlier
+   snapshot index [ssi] of the cut replica, a snapshot of kind regular or exported
+   taken at [k] succeeds, leaves the replica unchanged (only snapshotIndex moves)
+   and ANY replica behind [k] — fresh ([init] = true; any factory state, any
+   default capacity) or running and lagging ([init] = false) — that recovers from
+   it and is then handed the rest of the log under ANY delivery schedule starting
+   at or below [k] ends with the same five components [obs] = (user data, session
+   table in LRU order, membership, applied index, term) as the uninterrupted
+   replica, and reports the same result for every entry after the cut. *)
+Theorem snapshot_cut_equiv :
+  forall (S result : Type) (sm_update : S -> bytes -> S * result) norm
+         (sm_save : S -> bytes) (sm_recover : bytes -> option S),
+  (forall s, sm_recover (sm_save s) = Some s) ->
+  forall cfg cap (s0 : S) es k st_f evs_f,
+  c_ondisk cfg = false -> 0 < cap ->
+  contiguous 0 es -> Forall (fun e => 0 < en_term e) es ->
+  run_entries sm_update norm cfg (init_state cap s0) es = Ok (st_f, evs_f) ->
+  (0 < k <= length es)%nat ->
+  exists st_k evs_k evs_r,
+    run_entries sm_update norm cfg (init_state cap s0) (firstn k es) = Ok (st_k, evs_k) /\
+    evs_f = evs_k ++ evs_r /\
+    forall kind ssi,
+      kind <> SSStreaming -> Membership.m_is_empty (r_mem st_k) = false ->
+      ssi <= r_index st_k -> (kind = SSExported \/ ssi <> r_index st_k) ->
+      let cutter := with_ss_index (sync st_k) ssi in
+      exists img,
+        snapshot sm_save cfg kind cutter = Ok (Snap img (with_ss_index (sync st_k) (r_index st_k))) /\
+        i_index img = N.of_nat k /\
+        forall (init : bool) (st0 : @state S result) ts,
+          r_last_index st0 < N.of_nat k -> r_od_init st0 = 0 -> r_od st0 = 0 ->
+          delivery es k ts (length es) ->
+          exists st_r st_f',
+            recover sm_recover cfg init st0 img = Ok (Recovered st_r) /\ obs st_r = obs st_k /\
+            run_tasks sm_update norm cfg st_r ts = Ok (st_f', evs_r) /\ obs st_f' = obs st_f.
+Proof. exact @snapshot_cut_equiv_proved. Qed.
+Print Assumptions snapshot_cut_equiv.
+
+Definition demo_cc : Membership.cc := Membership.mkCC 0 0%Z 1 [97; 49] false.
+Definition demo_log : list entry :=
+  [ mkE 1 1 (BCC demo_cc);
+    mkE 2 1 (BApp (Session.mkEntry 5 (2 ^ 64 - 2) 0 []));
+    mkE 3 1 (BApp (Session.mkEntry 5 1 0 [1; 2; 3]));
+    mkE 4 2 (BApp (Session.mkEntry 9 0 0 [7]));
+    mkE 5 2 (BApp (Session.mkEntry 5 2 1 [4])) ].
+
+(* a restart from a snapshot at 3 with an overlap of two entries *)
+Example snapshot_cut_nonvacuous :
+  let cfg := mkCfg false false in
+  match rsm_run_entries cfg (rsm_init 4 0) demo_log, rsm_run_entries cfg (rsm_init 4 0) (firstn 3 demo_log) with
+  | Ok (f, _), Ok (sk, _) =>
+    match rsm_snapshot cfg SSRegular (sync sk) with
+    | Ok (Snap img _) =>
+      match rsm_recover cfg true (rsm_init 9 77) img with
+      | Ok (Recovered r) =>
+        match rsm_apply_task cfg r (skipn 1 demo_log) with
+        | Ok (f', evs) => obs f' = obs f /\ r_index f = 5 /\ r_sm f <> 0 /\ Session.t_list (r_tab f) <> [] /\ length evs = 2%nat
+        | _ => False
+        end
+      | _ => False
+      end
+    | _ => False
+    end
+  | _, _ => False
+  end.
+Proof. vm_compute. repeat split; discriminate. Qed.
+
+(* CONCURRENT snapshots: everything that goes into the image is captured by
+   prepare() in one critical section; whatever the replica applies between
+   prepare() and the end of the save, the image is the one an atomic snapshot at
+   the prepare point produces (so snapshot_cut_equiv applies to it) *)
+Theorem snapshot_cut_equiv_concurrent :
+  forall (S result : Type) (sm_save : S -> bytes) cfg k (st st_later : @state S result) m st1,
+  prepare cfg k st = Ok (Prepared m st1) ->
+  fst (finish_save sm_save cfg m st_later) = fst (finish_save sm_save cfg m st1) /\
+  snapshot sm_save cfg k st = Ok (Snap (fst (finish_save sm_save cfg m st1)) (snd (finish_save sm_save cfg m st1))).
+Proof. exact @snapshot_concurrent_image_proved. Qed.
+Print Assumptions snapshot_cut_equiv_concurrent.
+
+(* ON-DISK state machines: the snapshot is a dummy (membership, index, term,
+   OnDiskIndex; no user data, the session table is not restored — sessions are
+   not supported there, [ondisk_entry]); the user data comes back from the state
+   machine's own disk, which holds the state after an entry [pD] it applied
+   (r_od st_D = pD: Open returns an index it applied, or 0) with
+   OnDiskIndex(snapshot) <= pD (Sync precedes the snapshot). Entries at or below
+   pD are no-ops for the user state machine while config changes still apply. *)
+Theorem snapshot_cut_equiv_ondisk :
+  forall (S result : Type) (sm_update : S -> bytes -> S * result) norm
+         (sm_save : S -> bytes) (sm_recover : bytes -> option S),
+  (forall s, sm_recover (sm_save s) = Some s) ->
+  forall cfg cap (s0 : S) es k pD st_f evs_f,
+  c_ondisk cfg = true -> 0 < cap ->
+  contiguous 0 es -> Forall (fun e => 0 < en_term e) es -> Forall ondisk_entry es ->
+  run_entries sm_update norm cfg (init_state cap s0) es = Ok (st_f, evs_f) ->
+  (0 < k <= length es)%nat -> (pD <= length es)%nat ->
+  exists st_k evs_k st_D evs_D,
+    run_entries sm_update norm cfg (init_state cap s0) (firstn k es) = Ok (st_k, evs_k) /\
+    run_entries sm_update norm cfg (init_state cap s0) (firstn pD es) = Ok (st_D, evs_D) /\
+    forall ssi ts,
+      Membership.m_is_empty (r_mem st_k) = false -> ssi <= r_index st_k ->
+      r_od st_D = N.of_nat pD -> r_od st_k <= N.of_nat pD ->
+      delivery es k ts (length es) ->
+      exists img st_r st_f' evs',
+        snapshot sm_save cfg SSRegular (with_ss_index (sync st_k) ssi) =
+          Ok (Snap img (with_ss_index (sync st_k) (r_index st_k))) /\
+        i_dummy img = true /\ i_data img = None /\
+        recover sm_recover cfg true (open_ondisk (init_state cap (r_sm st_D)) (N.of_nat pD)) img = Ok (Recovered st_r) /\
+        run_tasks sm_update norm cfg st_r ts = Ok (st_f', evs') /\ obs st_f' = obs st_f /\ r_od st_f' = r_od st_f.
+Proof. exact @snapshot_cut_equiv_ondisk_proved. Qed.
+Print Assumptions snapshot_cut_equiv_ondisk.
+
+Definition demo_disk_log : list entry :=
+  [ mkE 1 1 (BCC demo_cc);
+    mkE 2 1 (BApp (Session.mkEntry 9 0 0 [1]));
+    mkE 3 1 (BApp (Session.mkEntry 0 0 0 []));
+    mkE 4 2 (BApp (Session.mkEntry 9 0 0 [2; 3]));
+    mkE 5 2 (BCC (Membership.mkCC 0 0%Z 2 [97; 50] false));
+    mkE 6 2 (BApp (Session.mkEntry 8 0 0 [4])) ].
+
+(* snapshot at 3, the disk holds the state after entry 4: entry 4 is skipped for
+   the user state machine, 5 (config change) and 6 are applied *)
+Example snapshot_cut_ondisk_nonvacuous :
+  let cfg := mkCfg true false in
+  match rsm_run_entries cfg (rsm_init 4 0) demo_disk_log,
+        rsm_run_entries cfg (rsm_init 4 0) (firstn 3 demo_disk_log),
+        rsm_run_entries cfg (rsm_init 4 0) (firstn 4 demo_disk_log) with
+  | Ok (f, _), Ok (sk, _), Ok (sd, _) =>
+    match rsm_snapshot cfg SSRegular (sync sk) with
+    | Ok (Snap img _) =>
+      match rsm_recover cfg true (rsm_open_ondisk (rsm_init 4 (r_sm sd)) 4) img with
+      | Ok (Recovered r) =>
+        match rsm_apply_task cfg r (skipn 2 demo_disk_log) with
+        | Ok (f', evs) => obs f' = obs f /\ r_od sd = 4 /\ r_od sk = 2 /\ i_dummy img = true /\
+                          r_od f' = 6 /\ evs = [EvSkip; EvCC true; EvApp (Session.OApplied (r_sm f, [4]))]
+        | _ => False
+        end
+      | _ => False
+      end
+    | _ => False
+    end
+  | _, _, _ => False
+  end.
+Proof. vm_compute. repeat split. Qed.
+
 (* ---- compaction (node.go doSave / compactLog / getCompactionIndex / recover /
    removeLog) ---------------------------------------------------------------- *)
 
